@@ -27,6 +27,7 @@ inline void strip_preamble(Bytes& sink, int pre)
 {
     preamble_damaged() = false;
     if (pre <= 0) return;
+    if (io_ctx()) ++io_ctx()->preambles;
     if ((int)sink.size() < pre) { preamble_damaged() = true; return; }
     for (int i = 0; i < pre; ++i) if (sink[(size_t)i] != preamble_byte(i)) preamble_damaged() = true;
     sink.erase(sink.begin(), sink.begin() + pre);
